@@ -1033,12 +1033,12 @@ def oracle_dense(r):
         M = L.pauli_string_matrix(la, ca)
         _eq(f"dense a ** {k}", _dmat(da ** k), np.linalg.matrix_power(M if k >= 0 else np.linalg.inv(M), abs(k)), 1e-7 * (1 + abs(ca) ** abs(k) + abs(1 / ca) ** abs(k)))
     i = int(r["i"]) % len(la)
-    if str(da[i]) != la[i]:
-        raise Violation(f"dense[{i}] is {da[i]} for the string {la}")
+    if da[i] != PG[la[i]]:
+        raise Violation(f"dense[{i}] is not the gate {la[i]} of the string {la}")
     j = i + int(r["j"])
     if _dlabel(da[i:j]) != la[i:j]:
         raise Violation(f"dense[{i}:{j}] is {_dlabel(da[i:j])} for the string {la}")
-    if [str(g) for g in da] != list(la) or len(da) != len(la):
+    if len(da) != len(la) or any(g != PG[ch] for g, ch in zip(da, la)) or len(list(da)) != len(la):
         raise Violation("iteration over a dense string does not give its Paulis")
     oh = cirq.DensePauliString.one_hot(index=i, length=len(la), pauli=r["p"])
     if _dlabel(oh) != "I" * i + r["p"] + "I" * (len(la) - i - 1) or oh.coefficient != 1:
@@ -1180,12 +1180,15 @@ def oracle_misc(r):
     expr = _to_sympy(r["expr"])
     if not isinstance(expr, (sympy.Symbol, sympy.And, sympy.Or, sympy.Xor, sympy.Not)):
         raise Reject("expression simplified to a constant")
-    try:
+    # recipe-side: did sympy fold a sub-expression into a constant (a node type the method documents as unsupported)?
+    folded = any(not isinstance(node, (sympy.Symbol, sympy.And, sympy.Or, sympy.Xor, sympy.Not)) for node in sympy.preorder_traversal(expr))
+    if folded:
+        try:
+            ps = cirq.PauliSum.from_boolean_expression(expr, {"x0": qs[0], "x1": qs[1], "x2": qs[2]})
+        except ValueError:
+            raise Reject("documented ValueError: sympy folded a sub-expression into a constant (unsupported node type)")
+    else:
         ps = cirq.PauliSum.from_boolean_expression(expr, {"x0": qs[0], "x1": qs[1], "x2": qs[2]})
-    except ValueError as e:
-        if str(e).startswith("Unsupported type") and "Boolean" in str(e):
-            raise Reject("documented ValueError: sympy folded a sub-expression into a constant")
-        raise
     M = ps.matrix(qs)
     diag = np.array([float(_eval_bool(r["expr"], {"x0": bool(b0), "x1": bool(b1), "x2": bool(b2)}))
                      for b0, b1, b2 in itertools.product([0, 1], repeat=3)])
